@@ -130,7 +130,7 @@ pub fn run(tier: Tier, shard: Shard, stats: &mut Stats) {
         builds.push(Build::TickStrings(v.into_iter().map(String::from).collect()));
     }
     let clusters = ["a", "█", "好", "\u{200b}", "e\u{301}"];
-    for v in seqs(&clusters, if tier == Tier::Quick { 3 } else { 4 }) {
+    for v in seqs(&clusters, if tier == Tier::Quick { 3 } else { 5 }) {
         builds.push(Build::ProgressChars(v.concat()));
     }
     let mut case = 0u64;
@@ -183,7 +183,7 @@ pub fn run(tier: Tier, shard: Shard, stats: &mut Stats) {
 }
 
 pub fn meta(tier: Tier) -> Meta {
-    let k = if tier == Tier::Quick { 3 } else { 4 };
+    let k = if tier == Tier::Quick { 3 } else { 5 };
     Meta {
         level: "exploration",
         rule: format!("every builder argument: tick_chars over strings of <= 3 chars from {{a, 好, ZWSP}}, tick_strings over <= 3 strings from {{\"\", a, ab, 好}}, progress_chars over <= {k} clusters from {{a, █, 好, ZWSP, e+combining acute}}, each on 12 templates; every accepted style is asked for tick strings at 0,1,n-1,n,n+1,u64::MAX and drawn at widths 1,5,80 x 7 position/length pairs x 3 statuses after up to 2n+1 ticks; oracle: explicit rejection at build time XOR never panics; distinct = distinct rendered shapes / rejection messages; non-trivial = accepted style"),
